@@ -1510,7 +1510,7 @@ func coqZList(v []int64) string {
 func runC09(a runArgs) error {
 	e := NewEmitter("C09", "Liveness.Run")
 	e.ShardSize = 400
-	e.Rule = "watchdog runs of the real client/server code: (transport: in-memory udp, tcp + real tcp/client.Session over a scripted net.Conn, udp + real dtls/server.Session over a scripted net.Conn, udp.Dial over loopback) x operation (request, observe, observation cancel, ping, confirmable / non-confirmable one-way write) x interruption point (before the call, on the wire, after an empty ACK, mid block-wise, queued behind the endpoint limit / total limit / NSTART) x peer behaviour (silence, garbage, unrelated well-formed messages) x trigger (cancel, deadline, local Close, peer close, none = proper answer as control); discovery on a started / not yet started server; 2-8 concurrent Close calls with 0-3 operations in flight and 1-4 on-close callbacks on the three real session types; 2-8 concurrent Server.Stop calls with server-initiated operations in flight (udp and tcp server); an operation whose write is stalled in the socket because the peer stopped reading (tcp and dtls session over a scripted conn whose Write blocks until it is closed; real loopback tcp with a body beyond the socket buffers) x (1-8 concurrent Close, peer closes, context cancelled / expired); the reader loop ended by the peer (input that does not decode, oversized message, peer closes) with 0-3 operations in flight and nobody calling Close, socket owned by the session or by the caller (tcp, dtls, udp.Dial / udp.Client over an own socket). Distinct = distinct scenario; non-trivial = the operation is blocked in a wait when the trigger fires (every scenario except the non-confirmable write), or a close/stop run with at least one callback."
+	e.Rule = "watchdog runs of the real client/server code: (transport: in-memory udp, tcp + real tcp/client.Session over a scripted net.Conn, udp + real dtls/server.Session over a scripted net.Conn, udp.Dial over loopback) x operation (request, observe, observation cancel, ping, confirmable / non-confirmable one-way write) x interruption point (before the call, on the wire, after an empty ACK, mid block-wise, queued behind the endpoint limit / total limit / NSTART) x peer behaviour (silence, garbage, unrelated well-formed messages) x trigger (cancel, deadline, local Close, peer close, none = proper answer as control); discovery on a started / not yet started server; 2-8 concurrent Close calls with 0-3 operations in flight and 1-4 on-close callbacks on the three real session types; 2-8 concurrent Server.Stop calls with server-initiated operations in flight (udp and tcp server); an operation whose write is stalled in the socket because the peer stopped reading (tcp and dtls session over a scripted conn whose Write blocks until it is closed; real loopback tcp with a body beyond the socket buffers) x (1-8 concurrent Close, peer closes, context cancelled / expired); the reader loop ended by the peer (input that does not decode, oversized message, peer closes) with 0-3 operations in flight and nobody calling Close, socket owned by the session or by the caller (tcp, dtls, udp.Dial / udp.Client over an own socket); 1-3 concurrent Server.Stop calls of a datagram server with 1-8 peers racing with the exit path of Serve for the peer table (a Stop call takes the table while the Serve goroutine is kept inside OnNewConn of a late peer and Serve returns while that call still works through the table; or Stop while Serve reads); the housekeeping (Conn.CheckExpirations driven with a virtual time, directly or through the function registered with the periodic runner) retransmitting / giving up the pending confirmable request, observe, observation cancel, ping or one-way write (retransmissions used up, deadline of the request's context passed, two housekeeping goroutines at once) before the call's context is cancelled / expires / the connection is closed, plus a call made afterwards. Distinct = distinct scenario; non-trivial = the operation is blocked in a wait when the trigger fires (every scenario except the non-confirmable write), or a close/stop run with at least one callback."
 	if os.Getenv("HX_CONFIRM") != "" {
 		c09Watchdog = 10 * time.Second
 	}
